@@ -396,6 +396,29 @@ def _pca(case, ctx):
                         ctx.violation('pca_mismatch', desc, 'channel %d component %d: features %r..., reference +/-%r...' % (
                             ch[j], comp, got[:4].tolist(), e[:4].tolist()), f)
                         return
+            # a request in which exactly two spikes have a waveform: the leading component is the direction of their difference
+            if len(have) >= 2:
+                two = np.array(sorted(have[:2]))
+                r2 = call(m.get_features, two, ch)
+                if r2.ok and np.asarray(r2.value).shape == (2, len(ch), 3):
+                    o2 = np.asarray(r2.value)
+                    idx2 = [have.index(int(s)) for s in two.tolist()]
+                    for j in range(len(ch)):
+                        X2 = W[idx2, :, j]
+                        dv = X2[1] - X2[0]
+                        if np.linalg.norm(dv) < 1e-6 * max(1.0, np.abs(X2).max()):
+                            continue
+                        v = (dv / np.linalg.norm(dv)).astype(np.float32).astype(np.float64)
+                        e2 = X2 @ v
+                        tol2 = 1e-4 * max(1.0, np.abs(e2).max())
+                        ctx.mon('pca.two_spike_requests')
+                        if not (np.allclose(o2[:, j, 0], e2, atol=tol2, rtol=1e-4) or np.allclose(o2[:, j, 0], -e2, atol=tol2, rtol=1e-4)):
+                            ctx.violation('pca_mismatch', desc, 'request of two stored spikes, channel %d: leading component %r, reference +/-%r' % (
+                                ch[j], o2[:, j, 0].tolist(), e2.tolist()), dict(f, two_spikes=True))
+                            return
+                elif not r2.ok:
+                    ctx.violation('raised', desc, 'get_features on two stored spikes raised %r' % r2.exc, dict(f, exc=r2.exc_name), tb=r2.tb)
+                    return
             # spikes not in the store must come back as zeros
             for i, s in enumerate(ids.tolist()):
                 if s not in pos and np.any(out[i] != 0):
